@@ -19,6 +19,7 @@ static struct archive *ar_to, *ar_from;
 static void u_begin(void) { ar_to = ar_from = NULL; }
 static void u_end(void)
 {
+	alarm(0);
 	if (ar_to) archive_read_free(ar_to);
 	if (ar_from) archive_read_free(ar_from);
 	ar_to = ar_from = NULL;
@@ -98,6 +99,9 @@ static struct archive_string_conv *get_sc(const char *dir, const char *cs)
 
 static void u_op(char *line)
 {
+	/* a conversion loop that stops making progress must not hang the run: the child is killed
+	 * by SIGALRM and the parent reports `!crash signal=14` for this operation */
+	alarm(strncmp(line, "enum", 4) == 0 ? 900 : strncmp(line, "big8", 4) == 0 ? 60 : 3);
 	char *w[8]; int n = vh_split(line, w, 8);
 	size_t len; dec_fn df;
 	if (n == 2 && (df = dec_by_name(w[0])) != NULL) {
